@@ -252,7 +252,7 @@ func execHist(f []string) string {
 	default:
 		return "bad-op"
 	}
-	dir, err := ioutil.TempDir("", "c51-hist-")
+	dir, err := ioutil.TempDir(tmpBase(), "c51-hist-")
 	if err != nil {
 		return "err:tmp"
 	}
@@ -379,3 +379,11 @@ func genHist(r *vh.Rand) string {
 
 var _ = vh.Hex
 var _ = bfe_basic.GlobalProduct
+
+// tmpBase prefers a memory file system for the many small conf files.
+func tmpBase() string {
+	if st, err := os.Stat("/dev/shm"); err == nil && st.IsDir() {
+		return "/dev/shm"
+	}
+	return ""
+}
